@@ -809,16 +809,14 @@ func (f *fragment) unprotectedSetRow(row *Row, rowID uint64) (changed bool, err 
 	}
 
 	// From the given row, get the rowSegment for this shard.
-	seg := row.segment(f.shard)
-	if seg == nil {
-		return changed, nil
-	}
-
-	// Put each container from rowSegment to fragment storage.
-	citer, _ := seg.data.Containers.Iterator(f.shard << shardVsContainerExponent)
-	for citer.Next() {
-		k, c := citer.Value()
-		f.storage.Containers.Put(headContainerKey+(k%(1<<shardVsContainerExponent)), c)
+	// (Without one the row is simply emptied; the caches below must still be updated.)
+	if seg := row.segment(f.shard); seg != nil {
+		// Put each container from rowSegment to fragment storage.
+		citer, _ := seg.data.Containers.Iterator(f.shard << shardVsContainerExponent)
+		for citer.Next() {
+			k, c := citer.Value()
+			f.storage.Containers.Put(headContainerKey+(k%(1<<shardVsContainerExponent)), c)
+		}
 	}
 
 	// Update the row in cache.
@@ -829,6 +827,14 @@ func (f *fragment) unprotectedSetRow(row *Row, rowID uint64) (changed bool, err 
 
 	// invalidate rowCache for this row.
 	f.rowCache.Add(rowID, nil)
+
+	// Invalidate block checksum.
+	delete(f.checksums, int(rowID/HashBlockSize))
+
+	// Update row count if they have increased.
+	if rowID > f.maxRowID {
+		f.maxRowID = rowID
+	}
 
 	// Snapshot storage.
 	f.enqueueSnapshot()
@@ -873,6 +879,9 @@ func (f *fragment) unprotectedClearRow(rowID uint64) (changed bool, err error) {
 	// Clear the row in cache.
 	f.cache.Add(rowID, 0)
 	f.rowCache.Add(rowID, nil)
+
+	// Invalidate block checksum.
+	delete(f.checksums, int(rowID/HashBlockSize))
 
 	// Snapshot storage.
 	f.enqueueSnapshot()
@@ -2082,6 +2091,11 @@ func (f *fragment) importPositions(set, clear []uint64, rowSet map[uint64]struct
 		// Invalidate block checksum.
 		delete(f.checksums, int(rowID/HashBlockSize))
 
+		// Update row count if they have increased.
+		if len(set) > 0 && rowID > f.maxRowID {
+			f.maxRowID = rowID
+		}
+
 		if f.CacheType != CacheTypeNone {
 			n := f.storage.CountRange(rowID*ShardWidth, (rowID+1)*ShardWidth)
 			f.cache.BulkAdd(rowID, n)
@@ -2184,8 +2198,9 @@ func (f *fragment) importValueSmallWrite(columnIDs []uint64, values []int64, bit
 		_ = f.openStorage(true)
 		return err
 	}
-	rowSet := make(map[uint64]struct{}, bitDepth+1)
-	for i := uint(0); i < bitDepth+1; i++ {
+	// the exists row, the sign row and bitDepth value rows
+	rowSet := make(map[uint64]struct{}, bitDepth+bsiOffsetBit)
+	for i := uint(0); i < bitDepth+bsiOffsetBit; i++ {
 		rowSet[uint64(i)] = struct{}{}
 	}
 	err := f.importPositions(toSet, toClear, rowSet)
@@ -2225,6 +2240,16 @@ func (f *fragment) importValue(columnIDs []uint64, values []int64, bitDepth uint
 		_ = f.openStorage(true)
 		return err
 	}
+	// importSetValue writes to storage directly: drop everything cached for the
+	// exists, sign and value rows.
+	for rowID := uint64(0); rowID < uint64(bitDepth)+bsiOffsetBit; rowID++ {
+		delete(f.checksums, int(rowID/HashBlockSize))
+		f.rowCache.Add(rowID, nil)
+		if rowID > f.maxRowID {
+			f.maxRowID = rowID
+		}
+	}
+
 	// We don't actually care, except we want our stats to be accurate.
 	f.incrementOpN(totalChanges)
 
@@ -2263,6 +2288,11 @@ func (f *fragment) importRoaring(ctx context.Context, data []byte, clear bool) e
 			continue
 		}
 		f.rowCache.Add(rowID, nil)
+		// Invalidate block checksum.
+		delete(f.checksums, int(rowID/HashBlockSize))
+		if rowID > f.maxRowID {
+			f.maxRowID = rowID
+		}
 		if updateCache {
 			anyChanged = true
 			f.cache.BulkAdd(rowID, f.cache.Get(rowID)+uint64(changes))
